@@ -622,6 +622,37 @@ pub fn cmd_run(args: &[String]) -> i32 {
         new_violations.push((sig.clone(), replay_path, *count));
     }
 
+    // --- regression corpus: minimal replays of findings that were fixed; each must stay clean ---
+    let mut regression_files = 0u64;
+    let mut regression_reproduced = 0u64;
+    if let Ok(rd) = std::fs::read_dir(verif_dir().join("regressions").join(scn.property())) {
+        let mut files: Vec<PathBuf> = rd.filter_map(|e| e.ok().map(|e| e.path())).filter(|p| p.extension().is_some_and(|x| x == "json")).collect();
+        files.sort();
+        for f in files {
+            regression_files += 1;
+            let rp = std::process::Command::new(&exe).arg("replay").arg(&f).arg("--quiet").env("PATH", out.join("emptybin")).output();
+            match rp.as_ref().ok().and_then(|o| o.status.code()) {
+                Some(0) => {}
+                Some(1) => {
+                    regression_reproduced += 1;
+                    let sig = std::fs::read(&f)
+                        .ok()
+                        .and_then(|b| serde_json::from_slice::<Value>(&b).ok())
+                        .and_then(|v| v["signature"].as_str().map(String::from))
+                        .unwrap_or_else(|| "regression".to_string());
+                    if let Some(k) = match_known(&known, scn.property(), &sig) {
+                        let e = known_seen.entry(k.id.clone()).or_insert((k.what.clone(), 0));
+                        e.1 += 1;
+                    } else {
+                        exit_code = 1;
+                        new_violations.push((format!("{sig} (regression corpus)"), f.clone(), 1));
+                    }
+                }
+                other => harness_errors.push(format!("regression replay {} ended abnormally ({other:?})", f.display())),
+            }
+        }
+    }
+
     for (id, (what, n)) in &known_seen {
         println!("KNOWN-FINDING: property={} {id}: {what} (seen in {n} runs)", scn.property());
     }
@@ -663,6 +694,7 @@ pub fn cmd_run(args: &[String]) -> i32 {
             "reached": reached,
             "counters": other,
             "in_process_determinism_rechecks": rechecks,
+            "regression_corpus": {"replay_files": regression_files, "reproduced": regression_reproduced},
             "workers": workers,
             "known_findings_seen": known_seen.iter().map(|(k, (_, n))| (k.clone(), json!(n))).collect::<Map<String, Value>>(),
             "violating_runs": violating_runs,
